@@ -60,6 +60,9 @@ func outcomeOf(sc *Scenario, rec *Rec, s *mc.Sched) string {
 
 func outcomeStr(sc *Scenario, rec *Rec, blocked []mc.BlockedInfo) string {
 	var b strings.Builder
+	if sc.Transport == "direct" {
+		b.WriteString(directView(rec))
+	}
 	for i, rr := range rec.RPCs {
 		fmt.Fprintf(&b, "rpc%d[recv=%s final=%s hdr=%s trl=%s srv=%s ret=%s]", i, strings.Join(rr.CliRecv, ","), strings.Join(rr.Finals, ";"),
 			rr.OptHeader, rr.OptTrailer, strings.Join(rr.SrvRecv, ","), rr.HandlerRet)
@@ -77,6 +80,9 @@ func outcomeStr(sc *Scenario, rec *Rec, blocked []mc.BlockedInfo) string {
 // observe reliably: what the client got (application metadata keys only).
 func clientView(sc *Scenario, rec *Rec) string {
 	var b strings.Builder
+	if sc.Transport == "direct" {
+		return directView(rec)
+	}
 	for i, rr := range rec.RPCs {
 		if len(sc.RPCs[i].Client) == 0 {
 			continue // a call made from inside a handler: not observable at a defined instant natively
